@@ -976,6 +976,19 @@ static void enumerate_c09(void)
 			int complete = !(gnutls && (ES[a] == JWT_ALG_ES256K || !strcmp(p.vk->crv, "secp256k1")));
 			floor_cell(&p, ES[a], usable, complete);
 		}
+	/* EC keys on curves outside JOSE, which the importer passes through to libcrypto by name: the size rule applies to them
+	 * all the same (a 512-bit curve is not the 521-bit one ES512 demands); no completeness demand */
+	vk_load_extra();
+	for (int k = 0; k < vk_extra_n; k++)
+		for (int a = 0; a < 4; a++) {
+			if (!vf_case("EC key %s (%s, %d bits) with %s", vk_extra[k].name, vk_extra[k].crv, vk_extra[k].bits, tok_alg_names[ES[a]]))
+				continue;
+			pk_t p = { 0 };
+			p.name = vk_extra[k].name;
+			p.vk = &vk_extra[k];
+			rc_rng_reseed(vf_case_index());
+			floor_cell(&p, ES[a], p.vk->bits == rc_es_bits(ES[a]), 0);
+		}
 	static const char *okps[] = { "ed25519a", "ed25519b", "ed448", "x25519" };
 	for (unsigned k = 0; k < sizeof okps / sizeof *okps; k++) {
 		if (!vf_case("OKP key %s with EdDSA", okps[k]))
